@@ -261,4 +261,240 @@ def Range.ordering (r o : Range) : Int :=
 /-- `&text[range]` -/
 def Range.index (bs : List Nat) (r : Range) : Option (List Nat) := sliceChecked bs r.start r.stop
 
+/-! ## TextSize (`u32`) arithmetic: `size.rs`, `traits.rs`
+
+The harness is built with overflow checks, so `self.raw + other.raw` / `self.raw - other.raw`
+panic (`none`) outside `0..=u32::MAX`.  The `&TextSize` / `&TextRange` operator impls and
+`AddAssign`/`SubAssign` forward to the by-value operator (`self $op *other`, `*self = *self + rhs`);
+the driver answers each of those variants with the same value. -/
+
+/-- `TextSize + TextSize` -/
+def Size.add (a b : Nat) : Option Nat := if a + b ≤ u32Max then some (a + b) else none
+
+/-- `TextSize - TextSize` -/
+def Size.sub (a b : Nat) : Option Nat := if b ≤ a then some (a - b) else none
+
+/-- `TextSize::checked_add`: `self.raw.checked_add(rhs.raw)`; `none` is `None`, not a panic. -/
+def Size.checkedAdd (a b : Nat) : Option Nat := if a + b ≤ u32Max then some (a + b) else none
+
+/-- `TextSize::checked_sub` -/
+def Size.checkedSub (a b : Nat) : Option Nat := if b ≤ a then some (a - b) else none
+
+/-- `TextSize::of(&str)` = `TextLen::text_len` = `len().try_into().unwrap()`: the byte length
+    (texts longer than `u32::MAX` are outside every stream and outside `LineIndex::from_source_text`'s
+    own assertion). -/
+def Size.ofStr (bs : List Nat) : Nat := bs.length
+
+/-- `TextSize::of(char)` = `char::len_utf8` of a scalar value -/
+def Size.ofChar (c : Nat) : Nat :=
+  if c < 0x80 then 1 else if c < 0x800 then 2 else if c < 0x10000 then 3 else 4
+
+/-- `impl Sum for TextSize`: `iter.fold(0.into(), Add::add)` -/
+def Size.sumGo : Nat → List Nat → Option Nat
+  | acc, [] => some acc
+  | acc, x :: xs =>
+    match Size.add acc x with
+    | some acc' => Size.sumGo acc' xs
+    | none => none
+
+def Size.sum (xs : List Nat) : Option Nat := Size.sumGo 0 xs
+
+/-! ## TextRange: moving one end, operators, bounds, mutable slicing -/
+
+/-- `TextRange::sub_start`: `TextRange::new(self.start() - amount, self.end())` -/
+def Range.subStart (r : Range) (k : Nat) : Option Range :=
+  match Size.sub r.start k with
+  | some s => Range.new? s r.stop
+  | none => none
+
+/-- `TextRange::add_start`: `TextRange::new(self.start() + amount, self.end())` -/
+def Range.addStart (r : Range) (k : Nat) : Option Range :=
+  match Size.add r.start k with
+  | some s => Range.new? s r.stop
+  | none => none
+
+/-- `TextRange::sub_end`: `TextRange::new(self.start(), self.end() - amount)` -/
+def Range.subEnd (r : Range) (k : Nat) : Option Range :=
+  match Size.sub r.stop k with
+  | some e => Range.new? r.start e
+  | none => none
+
+/-- `TextRange::add_end`: `TextRange::new(self.start(), self.end() + amount)` -/
+def Range.addEnd (r : Range) (k : Nat) : Option Range :=
+  match Size.add r.stop k with
+  | some e => Range.new? r.start e
+  | none => none
+
+/-- `TextRange + TextSize`: `self.checked_add(offset).expect("TextRange +offset overflowed")` -/
+def Range.addOp (r : Range) (k : Nat) : Option Range := r.checkedAdd k
+
+/-- `TextRange - TextSize`: `self.checked_sub(offset).expect("TextRange -offset overflowed")` -/
+def Range.subOp (r : Range) (k : Nat) : Option Range := r.checkedSub k
+
+/-- `std::ops::Bound<&TextSize>` -/
+inductive Bound where
+  | included (x : Nat)
+  | excluded (x : Nat)
+  | unbounded
+deriving Repr, DecidableEq
+
+/-- `RangeBounds::start_bound` -/
+def Range.startBound (r : Range) : Bound := .included r.start
+
+/-- `RangeBounds::end_bound` -/
+def Range.endBound (r : Range) : Bound := .excluded r.stop
+
+/-- the provided method `RangeBounds::contains` of std, which reads only the two bounds -/
+def boundsContain (lo hi : Bound) (x : Nat) : Bool :=
+  (match lo with
+   | .included s => decide (s ≤ x)
+   | .excluded s => decide (s < x)
+   | .unbounded => true) &&
+  (match hi with
+   | .included e => decide (x ≤ e)
+   | .excluded e => decide (x < e)
+   | .unbounded => true)
+
+def Range.boundsContains (r : Range) (x : Nat) : Bool := boundsContain r.startBound r.endBound x
+
+/-- `u8::to_ascii_uppercase` (what the harness does to the slice it gets from `index_mut`) -/
+def asciiUpper (b : Nat) : Nat := if 97 ≤ b ∧ b ≤ 122 then b - 32 else b
+
+/-- `(&mut text[range]).make_ascii_uppercase()` through `IndexMut<TextRange>` (for `str` and for
+    `String`: both are `&mut self[Range::<usize>::from(index)]`), then the whole text. -/
+def Range.indexMutUpper (bs : List Nat) (r : Range) : Option (List Nat) :=
+  match sliceChecked bs r.start r.stop with
+  | some s => some (bs.take r.start ++ s.map asciiUpper ++ bs.drop r.stop)
+  | none => none
+
+/-! ## SourceCode / SourceFile slicing helpers (`source_location/mod.rs`) -/
+
+/-- `SourceCode::up_to(offset)`: `&self.text[TextRange::up_to(offset)]` -/
+def SourceCode.upTo (bs : List Nat) (o : Nat) : Option (List Nat) := (Range.upTo o).index bs
+
+/-- `SourceCode::after(offset)`: `&self.text[usize::from(offset)..]` -/
+def SourceCode.after (bs : List Nat) (o : Nat) : Option (List Nat) :=
+  if o ≤ bs.length ∧ isBoundary bs o then some (bs.drop o) else none
+
+/-- `SourceCode::slice(range)` / `SourceFile::slice(range)`: `&self.text[range]` -/
+def SourceCode.slice (bs : List Nat) (r : Range) : Option (List Nat) := r.index bs
+
+/-! ## Line queries (`newlines.rs`) -/
+
+/-- `Line::start` -/
+def Line.start (l : Line) : Nat := l.offset
+
+/-- `Line::full_text_len`: `self.text.text_len()` -/
+def Line.fullTextLen (l : Line) : Nat := Size.ofStr l.text
+
+/-- `Line::full_end`: `self.offset + self.full_text_len()` -/
+def Line.fullEnd (l : Line) : Option Nat := Size.add l.offset l.fullTextLen
+
+/-- `Line::end`: `self.offset + self.as_str().text_len()` -/
+def Line.end' (l : Line) : Option Nat := Size.add l.offset (Size.ofStr l.asStr)
+
+/-- `Line::full_range`: `TextRange::at(self.offset, self.text.text_len())` -/
+def Line.fullRange (l : Line) : Option Range := Range.at? l.offset (Size.ofStr l.text)
+
+/-- `Line::range`: `TextRange::new(self.start(), self.end())` -/
+def Line.range (l : Line) : Option Range :=
+  match l.end' with
+  | some e => Range.new? l.start e
+  | none => none
+
+/-- `impl PartialEq<&str> for Line` / `impl PartialEq<Line> for &str`: compare `as_str()` -/
+def Line.eqStr (l : Line) (s : List Nat) : Bool := l.asStr == s
+
+/-- `UniversalNewlineIterator::with_offset` including its `offset + text.text_len()` overflow panic -/
+def Iter.withOffset? (text : List Nat) (offset : Nat) : Option Iter :=
+  match Size.add offset (Size.ofStr text) with
+  | some _ => some (Iter.withOffset text offset)
+  | none => none
+
+/-- `Iterator::last` is overridden: `self.next_back()` -/
+def Iter.last (it : Iter) : Option Line := it.nextBack.1
+
+/-- `StrExt::universal_newlines` = `UniversalNewlineIterator::from(self)` = `with_offset(self, 0)` -/
+def universalNewlines (t : List Nat) : Iter := Iter.withOffset t 0
+
+/-- `Iterator::collect` through `next` (at most one line per byte) -/
+def Iter.collect (it : Iter) : List Line :=
+  let rec go (fuel : Nat) (it : Iter) : List Line :=
+    match fuel with
+    | 0 => []
+    | fuel + 1 =>
+      match it.next with
+      | (some l, it') => l :: go fuel it'
+      | (none, _) => []
+  go (it.text.length + 1) it
+
+/-- `NewlineWithTrailingNewline::from(input)` = `with_offset(input, TextSize::default())` -/
+def trailingLinesFrom (t : List Nat) : List Line := trailingLines t 0
+
+/-- `LineEnding` -/
+inductive LineEnding where
+  | lf
+  | cr
+  | crlf
+deriving Repr, DecidableEq
+
+/-- `LineEnding::as_str` -/
+def LineEnding.asStr : LineEnding → List Nat
+  | .lf => [10]
+  | .crlf => [13, 10]
+  | .cr => [13]
+
+/-- `LineEnding::len` -/
+def LineEnding.len : LineEnding → Nat
+  | .lf => 1
+  | .cr => 1
+  | .crlf => 2
+
+/-- `LineEnding::text_len` -/
+def LineEnding.textLen : LineEnding → Nat
+  | .lf => 1
+  | .cr => 1
+  | .crlf => 2
+
+/-- `find_newline` with the `LineEnding` it returns (`findNewline` above keeps only its `len()`). -/
+def findNewlineE : List Nat → Option (Nat × LineEnding)
+  | [] => none
+  | b :: rest =>
+    if b = 10 then some (0, .lf)
+    else if b = 13 then (if rest.head? = some 10 then some (0, .crlf) else some (0, .cr))
+    else match findNewlineE rest with
+      | some (p, e) => some (p + 1, e)
+      | none => none
+
+/-! ## OneIndexed (`NonZeroU32`), represented by its value `get()` -/
+
+/-- `OneIndexed::new` -/
+def OneIndexed.new? (v : Nat) : Option Nat := if v = 0 then none else some v
+
+/-- `OneIndexed::from_zero_indexed`: `Self::ONE.saturating_add(value)` -/
+def OneIndexed.fromZeroIndexed (v : Nat) : Nat := min (1 + v) u32Max
+
+/-- `OneIndexed::try_from_zero_indexed(value: usize)`: `none` is `Err(value)` -/
+def OneIndexed.tryFromZeroIndexed (v : Nat) : Option Nat :=
+  if v ≤ u32Max then some (min (1 + v) u32Max) else none
+
+/-- `OneIndexed::to_zero_indexed` (`to_zero_indexed_usize` is the same value as `usize`) -/
+def OneIndexed.toZeroIndexed (x : Nat) : Nat := x - 1
+
+/-- `OneIndexed::to_usize` / `get` -/
+def OneIndexed.toUsize (x : Nat) : Nat := x
+
+/-- `OneIndexed::saturating_add`: `NonZeroU32::new(self.get().saturating_add(rhs))`, `None => MAX` -/
+def OneIndexed.saturatingAdd (x rhs : Nat) : Nat :=
+  let v := min (x + rhs) u32Max
+  if v = 0 then u32Max else v
+
+/-- `OneIndexed::saturating_sub`: `NonZeroU32::new(self.get().saturating_sub(rhs))`, `None => MIN` -/
+def OneIndexed.saturatingSub (x rhs : Nat) : Nat :=
+  let v := x - rhs
+  if v = 0 then 1 else v
+
+/-- `SourceLocation::default()`: row and column `OneIndexed::MIN` -/
+def SourceLocation.default : Nat × Nat := (1, 1)
+
 end PV.C15
